@@ -430,8 +430,10 @@ where
 {
     let m = s1.len() as u64;
     let mle = MleJaccard::new(b, m, a);
-    let c1 = mle.get_cardinal_estimate(s1);
-    let c2 = mle.get_cardinal_estimate(s2);
+    let (c1, c2) = match guarded(|| (mle.get_cardinal_estimate(s1), mle.get_cardinal_estimate(s2))) {
+        Ok(c) => c,
+        Err(p) => return MleOut { res: Err(format!("get_cardinal_estimate aborts: {}", p)), jac: f64::NAN, b_sup: f64::NAN },
+    };
     let aux = c1 / c2;
     let b_sup = aux.min(1. / aux);
     let dequal = s1.iter().zip(s2.iter()).filter(|(x, y)| x == y).count();
@@ -505,6 +507,49 @@ fn mle_register_pairs(ctx: &Ctx, st: &mut MStats) {
                 }
             }
         }
+        }
+    }
+}
+
+/// the MLE and the cardinality estimate reduce over the registers with rayon: inside pools of 1..64 workers (more workers
+/// than registers, fewer, a prime number of them) they must stay total and agree with the value computed outside any
+/// explicit pool up to the rounding of a re-associated sum
+fn mle_in_pools(ctx: &Ctx, st: &mut MStats) {
+    let pools: Vec<(usize, rayon::ThreadPool)> = [1usize, 2, 3, 4, 7, 64].iter().map(|n| (*n, rayon::ThreadPoolBuilder::new().num_threads(*n).build().unwrap())).collect();
+    let ms: Vec<usize> = ctx.pick(vec![1, 2, 3, 5, 8, 63, 65, 130], vec![1, 2, 3, 4, 5, 6, 7, 8, 9, 13, 63, 64, 65, 127, 130, 1000]);
+    for &b in &[1.001f64, 1.2] {
+        let r3 = (1e3f64.ln() / b.ln()).round() as u16;
+        for &m in &ms {
+            // identical, disjoint, nested-looking and half-equal register vectors
+            let base: Vec<u16> = (0..m).map(|i| r3 + (i as u16 * 7) % 23).collect();
+            let shifted: Vec<u16> = base.iter().map(|x| x + 29).collect();
+            let half: Vec<u16> = base.iter().enumerate().map(|(i, x)| if i % 2 == 0 { *x } else { x + 3 }).collect();
+            for (label, s2) in [("identical", &base), ("disjoint", &shifted), ("half-equal", &half)] {
+                let reference = run_mle::<u16>(b, 20., &base, s2);
+                for (n, pool) in &pools {
+                    let o = pool.install(|| run_mle::<u16>(b, 20., &base, s2));
+                    let card = pool.install(|| guarded(|| MleJaccard::new(b, m as u64, 20.).get_cardinal_estimate(&base[..])));
+                    st.calls += 2;
+                    let case = json!({"kind": "mle-pool", "b": b, "m": m, "threads": n, "s1": base, "s2": s2});
+                    if let Some((key, what)) = judge_mle(&o) {
+                        st.failing += 1;
+                        ctx.violation(&format!("{}:pool", key), &format!("b={} m={} ({} registers) inside a rayon pool of {} workers: {}", b, m, label, n, what), case.clone());
+                        continue;
+                    }
+                    if let Err(p) = &card {
+                        st.failing += 1;
+                        ctx.violation("cardinal-panic:pool", &format!("b={} m={} inside a rayon pool of {} workers: get_cardinal_estimate aborts: {}", b, m, n, &p[..p.len().min(200)]), case.clone());
+                        continue;
+                    }
+                    if let (Ok(Some(x)), Ok(Some(y))) = (&o.res, &reference.res) {
+                        st.distinct.insert(x.to_bits());
+                        if (x - y).abs() > 1e-6 {
+                            st.failing += 1;
+                            ctx.violation("mle-depends-on-pool", &format!("b={} m={} ({} registers): get_mle gives {} inside a pool of {} workers and {} outside", b, m, label, x, n, y), case);
+                        }
+                    }
+                }
+            }
         }
     }
 }
@@ -615,6 +660,7 @@ pub fn run(ctx: &Ctx) -> i32 {
     let mut ms = MStats::default();
     mle_register_pairs(ctx, &mut ms);
     mle_real_sketches(ctx, &mut ms);
+    mle_in_pools(ctx, &mut ms);
     {
         let a: Vec<u16> = vec![110, 100, 100];
         let b: Vec<u16> = vec![110, 110, 100];
@@ -672,6 +718,21 @@ pub fn replay(_ctx: &Ctx, case: &Value) -> Result<(bool, String), String> {
             let o = run_mle::<u16>(b, 20., &s1, &s2);
             let j = judge_mle(&o);
             Ok((j.is_some(), format!("{:?}", j.map(|x| x.1).unwrap_or_else(|| format!("{:?}", o.res)))))
+        }
+        Some("mle-pool") => {
+            let b = case["b"].as_f64().ok_or("b")?;
+            let n = case["threads"].as_u64().ok_or("threads")? as usize;
+            let s1: Vec<u16> = case["s1"].as_array().ok_or("s1")?.iter().map(|v| v.as_u64().unwrap_or(0) as u16).collect();
+            let s2: Vec<u16> = case["s2"].as_array().ok_or("s2")?.iter().map(|v| v.as_u64().unwrap_or(0) as u16).collect();
+            let pool = rayon::ThreadPoolBuilder::new().num_threads(n).build().map_err(|e| e.to_string())?;
+            let o = pool.install(|| run_mle::<u16>(b, 20., &s1, &s2));
+            let reference = run_mle::<u16>(b, 20., &s1, &s2);
+            let j = judge_mle(&o);
+            let differs = match (&o.res, &reference.res) {
+                (Ok(Some(x)), Ok(Some(y))) => (x - y).abs() > 1e-6,
+                _ => false,
+            };
+            Ok((j.is_some() || differs, format!("in pool of {}: {:?}; outside: {:?}", n, o.res, reference.res)))
         }
         Some(_) => Err("counting cases are re-derived by running the check itself (they are a complete enumeration)".into()),
         None => Err("kind".into()),
